@@ -224,6 +224,7 @@ def run(prog, R):
             rows.add((tuple(emp), "bare" if bare else ("annotated" if wrapped else "other:" + arg[:60])))
         ok = rows == {((True,), "bare"), ((False,), "annotated")}
         R.ob("C06.4-annotations", "insert_stmt(bare) iff annotations_is_empty, else insert_stmt(AnnotatedStmt::new(stmt, take_annotations()))", ok, b.at, f"{sorted(rows)}")
+    R.premises(prog, "C06.1-literal-class-premise", ["C10:C10.4-", "C08:C08.1-"], "every literal class maps to the graph literal of the same class (imaginary / timing / bit-string / boolean constructors, signs): C10.4 and C08.1 tables")
     R.premises(prog, "C06.5-include-premise", ["C18:C18.2-", "C18:C18.5-"], "included files are expanded in place: the n-th include statement is paired with the n-th parsed file (lock-step of the pre-pass and the analyser, C18.2)")
     # who consumes pending annotations: only the top-level statement loop.  A consumer inside a nested statement list
     # would hand an annotation that is pending when the enclosing statement starts (i.e. written in front of it) to
@@ -232,6 +233,13 @@ def run(prog, R):
     okc = bool(cons) and all(k == S2S + "syntax_to_semantic" for k in cons)
     R.ob("C06.4-annotations", "pending annotations are consumed only by the top-level statement loop", okc, prog.body(cons[0]).at if cons else "",
          f"consumers: {sorted(set(inventory.ishort(k) for k in cons))}" + ("" if okc else ": a nested consumer attaches an annotation written before the enclosing statement to a statement inside it"))
+    # the pending-annotation list is touched only in three ways: pushed by the AnnotationStatement arm, tested and taken by
+    # the top-level loop.  Any other access (clearing at the end of a file, peeking elsewhere) changes which statement an
+    # annotation lands on, in particular across include boundaries.
+    acc = sorted({(inventory.ishort(k), (b_.callee_of(t) or "").split("::")[-1]) for k, b_ in prog.bodies.items() if not k.startswith("oq3_semantics::context::Context::")
+                  for _, t in b_.calls() if (b_.callee_of(t) or "").startswith("oq3_semantics::context::Context::") and "annotation" in (b_.callee_of(t) or "").split("::")[-1]})
+    want_acc = [("semantics::syntax_to_semantics::stmt_to_asg_stmt", "push_annotation"), ("semantics::syntax_to_semantics::syntax_to_semantic", "annotations_is_empty"), ("semantics::syntax_to_semantics::syntax_to_semantic", "take_annotations")]
+    R.ob("C06.4-annotations", "accesses to the pending-annotation list", acc == want_acc, "", f"{acc}" if acc == want_acc else f"accesses {acc}; expected exactly {want_acc}")
     ta = prog.body("oq3_semantics::context::Context::take_annotations")
     if ta:
         names = [(ta.callee_of(t) or "").split("::")[-1] for _, t in ta.calls()]
